@@ -16,7 +16,7 @@ pub static DEF: PropDef = PropDef {
     level: "exploration",
     engine: "meta-cas",
     rule: "one run = 2..4 real ObjectStoreMetadataClients issuing 3..7 creations/updates each on 1..2 shard objects, expected generation taken from the node's last (possibly stale) read or deliberately wrong; every store request is a seeded scheduling point, 2/3 of runs add injected request failures/delays; distinct = distinct (node, request kind, object class, fault) grant sequence; non-trivial = completed AND (interleaved OR a fault fired)",
-    quick_runs: 6000,
+    quick_runs: 15000,
     thorough_runs: 150_000,
     run_cap_ms: 20_000,
     scen,
